@@ -124,6 +124,35 @@ def valids : List Expr → Bool
   | e :: es => valid e && valids es
 end
 
+/-! ### the two clauses of `valid`, separately (what remains false of the live emitter is exactly these) -/
+
+mutual
+/-- no empty criteria list, no kind matcher without kinds -/
+def listsNonEmpty : Expr → Bool
+  | .kinds _ ks _ => !ks.isEmpty
+  | .neg e => listsNonEmpty e
+  | .paren e => listsNonEmpty e
+  | .join _ es => !es.isEmpty && listsNonEmptyAll es
+  | _ => true
+def listsNonEmptyAll : List Expr → Bool
+  | [] => true
+  | e :: es => listsNonEmpty e && listsNonEmptyAll es
+end
+
+mutual
+/-- every integer literal has magnitude ≤ 2^63-1 (and decimals are canonical, a representation invariant) -/
+def literalsInRange : Expr → Bool
+  | .cmp l _ r => l.ok && r.ok
+  | .isNull l _ => l.ok
+  | .neg e => literalsInRange e
+  | .paren e => literalsInRange e
+  | .join _ es => literalsInRangeAll es
+  | _ => true
+def literalsInRangeAll : List Expr → Bool
+  | [] => true
+  | e :: es => literalsInRange e && literalsInRangeAll es
+end
+
 /-! ### the F8 shapes -/
 
 def Lit.integralFloat : Lit → Bool
@@ -216,7 +245,7 @@ def canonItems (op : Op) : List Expr → List Expr
   | e :: es => items op (wrapE (decide (e.lvl < op.lvl)) (canon e)) ++ canonItems op es
 end
 
-/-! ### Prepare: the neo4j ExpressionListRewriter (query/neo4j/rewrite.go) on the WHERE expression
+/-! ### Prepare as it is: the neo4j ExpressionListRewriter (query/neo4j/rewrite.go) on the WHERE expression
 
 `prep sn neg inList e` mirrors the post-order walk: `neg` = a Negation is on the descent stack, `inList` = the
 immediate parent is an ExpressionList (Where, Conjunction, Disjunction, ExclusiveDisjunction). Result `none` = Prepare
@@ -307,6 +336,39 @@ def evalOpt (v : Val) : Option Expr → V3
 
 /-- a row is returned iff the pattern matches and the WHERE is true -/
 def meaning (v : Val) (ks : List String) (w : Option Expr) : V3 := and3 (patK v ks) (evalOpt v w)
+
+/-! ### PROPOSAL (hooks/C10-fix7, not applied in /repo): a relationship kind matcher moves onto the pattern
+only if it is any-of, has no Negation above it, is reached from the WHERE through conjunctions and parentheticals only,
+sits directly in an expression list, and the pattern carries no kinds yet (`busy`); otherwise it stays where it is.
+There is no refusal any more. -/
+mutual
+def prepFix7 (sn busy neg conj inList : Bool) : Expr → List (List String) × Option Expr
+  | .cmp l op r => ([], some (.cmp l op r))
+  | .isNull l b => ([], some (.isNull l b))
+  | .kinds ref ks a =>
+    if ref = edgeSym && !neg && conj && inList && !busy && !(a && decide (2 ≤ ks.length)) then ([ks], none)
+    else ([], some (.kinds ref ks a))
+  | .neg c =>
+    let p := prepFix7 sn busy true false false c
+    (p.1, some (negExit sn inList (p.2.getD c)))
+  | .paren c =>
+    let p := prepFix7 sn busy neg conj false c
+    (p.1, parenExit inList (p.2.getD c))
+  | .join op es =>
+    let p := prepListFix7 sn busy neg (conj && decide (op = .and)) es
+    (p.1, joinExit inList op p.2)
+def prepListFix7 (sn busy neg conj : Bool) : List Expr → List (List String) × List Expr
+  | [] => ([], [])
+  | e :: es =>
+    let p := prepFix7 sn busy neg conj true e
+    let q := prepListFix7 sn (busy || !p.1.isEmpty) neg conj es
+    (p.1 ++ q.1, consOpt p.2 q.2)
+end
+
+/-- what QueryBuilder.Prepare does to the WHERE expression: kinds put on the relationship pattern, new WHERE -/
+def prepareFix7 (e : Expr) : List String × Option Expr :=
+  let p := prepFix7 true false false true true e
+  (flattenKinds p.1, p.2)
 
 mutual
 /-- one flag per matcher the rewriter will hoist: does it sit in a purely conjunctive position (and is it any-of)? -/
